@@ -408,4 +408,95 @@ def ctxCrashLegacy (fs : CtxFs) (new : Bytes) : CtxCrashPointLegacy → CtxFs
   | .created => { fs with main := some [] }
   | .overwritten k => { fs with main := some (overwrite (fs.main.getD []) new k) }
 
+/-! ### the pending index of the write-ahead queue (`FileQueue.Index`, store/file_queue.go)
+
+  `Index` maps a key (key bytes only — not the flag) to the newest queued item and a reference count
+  `refCnt`. `setIndex` (on every Put / batch item) increments it, `delIndex` (on every Done of the async
+  writer) decrements it and deletes the entry at `refCnt <= 1`; `emptyFile` (first thing in Put and
+  PutBatch) deletes and recreates tmp.data when `len(Index) == 0`. -/
+
+structure IdxEntry where
+  key : Bytes
+  flg : Nat
+  cnt : Nat
+  deriving DecidableEq, Repr
+
+abbrev Index := List IdxEntry
+
+def idxFind (idx : Index) (k : Bytes) : Option IdxEntry := idx.find? (fun e => e.key == k)
+def idxErase (idx : Index) (k : Bytes) : Index := idx.filter (fun e => !(e.key == k))
+def idxPut (idx : Index) (e : IdxEntry) : Index := e :: idxErase idx e.key
+/-- reference count of a key (0 = no entry) -/
+def idxCnt (idx : Index) (k : Bytes) : Nat := match idxFind idx k with | some e => e.cnt | none => 0
+
+/-- `setIndex`. `seeded = true` is the variant of /scratch/pending/seed-C08 (an existing entry is updated in
+    place and the increment is lost); the code under test is `seeded = false`. -/
+def setIndex (seeded : Bool) (idx : Index) (r : Record) : Index :=
+  match idxFind idx r.key with
+  | none => idxPut idx ⟨r.key, r.flg, 1⟩
+  | some e => idxPut idx ⟨r.key, r.flg, if seeded then e.cnt else e.cnt + 1⟩
+
+/-- `delIndex(flag, key)`: `none` = the Go code panics ("del index.val.flag != flag") -/
+def delIndex (idx : Index) (flg : Nat) (k : Bytes) : Option Index :=
+  match idxFind idx k with
+  | none => some idx                        -- "del index.done is not exist": logged only
+  | some e =>
+    if e.flg ≠ flg then none
+    else if e.cnt ≤ 1 then some (idxErase idx k)
+    else some (idxPut idx ⟨k, e.flg, e.cnt - 1⟩)
+
+/-- queue state at record granularity -/
+structure QState where
+  index : Index
+  pending : List Record     -- handed to the writer (WriteChan / in flight), oldest first
+  wal : List Record         -- records in tmp.data
+  done : List Record        -- records the writer has persisted, in order: the bitcask holds `replay ∅ done`
+  deriving DecidableEq, Repr
+
+def QState.init : QState := ⟨[], [], [], []⟩
+
+inductive QOp where
+  | put (r : Record)            -- FileQueue.Put
+  | batch (rs : List Record)    -- FileQueue.PutBatch
+  | done                        -- the writer persists the oldest pending record, Done -> afterPut -> delIndex
+  deriving DecidableEq, Repr
+
+/-- `emptyFile` -/
+def qEmptyFile (s : QState) : QState := if s.index = [] then { s with wal := [] } else s
+
+def qDeliver (seeded : Bool) (s : QState) (r : Record) : QState :=
+  { s with index := setIndex seeded s.index r, pending := s.pending ++ [r] }
+
+/-- one operation; the Bool is `true` when `delIndex` panicked (the process dies; the record had been
+    persisted already, the index is unchanged) -/
+def qStep (seeded : Bool) (s : QState) : QOp → QState × Bool
+  | .put r =>
+    let s1 := qEmptyFile s
+    (qDeliver seeded { s1 with wal := s1.wal ++ [r] } r, false)
+  | .batch rs =>
+    if rs = [] then (s, false)              -- BeansDB.Commit skips empty batches
+    else
+      let s1 := qEmptyFile s
+      (rs.foldl (qDeliver seeded) { s1 with wal := s1.wal ++ rs }, false)
+  | .done =>
+    match s.pending with
+    | [] => (s, false)
+    | r :: rest =>
+      match delIndex s.index r.flg r.key with
+      | some idx => ({ s with index := idx, pending := rest, done := s.done ++ [r] }, false)
+      | none => ({ s with pending := rest, done := s.done ++ [r] }, true)
+
+def qRun (seeded : Bool) (s : QState) : List QOp → QState × Bool
+  | [] => (s, false)
+  | op :: ops =>
+    match qStep seeded s op with
+    | (s', true) => (s', true)
+    | (s', false) => qRun seeded s' ops
+
+/-- the store a restart after a crash in state `s` ends up with: bitcask content + redelivered tmp.data -/
+def QState.recovered (s : QState) : Store := (Store.empty.replay s.done).replay s.wal
+
+/-- the store every acknowledged Put / PutBatch promises: all records, in order -/
+def QState.promised (s : QState) : Store := Store.empty.replay (s.done ++ s.pending)
+
 end LemoModel.Wal
